@@ -154,9 +154,9 @@ func runC09(p *Prog, r *Report, tier string) {
 					continue
 				}
 				okGuard := false
-				if b, ok := gd.If.Cond.(*ssa.BinOp); ok {
-					if c, ok := b.X.(*ssa.Call); ok && calleeName(&c.Call) == "iface:pkg/entities.Set.GetSetType" {
-						if v, ok := constInt(b.Y); ok && ((b.Op == token.EQL && v == 1 && gd.Succ == 0) || (b.Op == token.NEQ && v == 1 && gd.Succ == 1) || (v != 1)) {
+				for _, cf := range cmpForms(gd.If.Cond) {
+					if c, ok := cf.X.(*ssa.Call); ok && calleeName(&c.Call) == "iface:pkg/entities.Set.GetSetType" {
+						if v, ok := constInt(cf.Y); ok && ((cf.Op == token.EQL && v == 1 && gd.Succ == cf.Succ) || (v != 1)) {
 							okGuard = true
 						}
 					}
@@ -262,9 +262,9 @@ func runC09(p *Prog, r *Report, tier string) {
 	// undefined set type: SendSet refuses it first, and a reset set always has it
 	okUndef := false
 	if i := ifOf(ss.Blocks[0]); i != nil {
-		if b, ok := i.Cond.(*ssa.BinOp); ok && b.Op == token.EQL {
-			if c, ok := b.X.(*ssa.Call); ok && calleeName(&c.Call) == "iface:pkg/entities.Set.GetSetType" {
-				if v, ok := constInt(b.Y); ok && v == 255 && onlyErrorReturnsFrom(ss.Blocks[0].Succs[0]) {
+		for _, cf := range cmpForms(i.Cond) {
+			if c, ok := cf.X.(*ssa.Call); ok && cf.Op == token.EQL && calleeName(&c.Call) == "iface:pkg/entities.Set.GetSetType" {
+				if v, ok := constInt(cf.Y); ok && v == 255 && onlyErrorReturnsFrom(ss.Blocks[0].Succs[cf.Succ]) {
 					okUndef = true
 				}
 			}
